@@ -21,7 +21,7 @@ NOT covered / bounded / assumed (keep this list current):
    history only in `send_full_state_setpoint.history.*` (fully symbolic only in the thorough tier, 3 commands);
  * two threads on one sender object: only the schedule point "second command runs while the first is inside cf.send_packet";
    pre-emption between two statements of one sender is out of reach (the senders keep no per-object state, which `*.history` checks);
- * send_lh_persist_data_packet: ids in any order up to 3+3 (quick), ascending up to 6+6 (the engine's sort model stops at 6 elements;
+ * send_lh_persist_data_packet: ids in any order up to 2+2 (quick), ascending up to 6+6 (the engine's sort model stops at 6 elements;
    4+4 in any order needs 3-10 minutes of solver time and 5 elements stay undecided); base stations listed TWICE violate the clause on
    the unchanged tree (finding, contracts `*.repeated-ids.*`, thorough_only);
  * send_setpoint with a FLOAT thrust: the fractional case is decided by native sampling when the solver gives up on int(thrust) != thrust;
@@ -70,7 +70,8 @@ def check_packet(c, port, channel, layout, errors=(), ok_when=None, sender='cf.s
         c.snapshot('pk', 'sent(SENDER)[0][1][0]')
         c.ensure('port-channel-header', 'pk.port == %d and pk.channel == %d and pk.header == %d and pk.get_header() == %d'
                  % (port, channel, (port << 4) | 0xC | channel, (port << 4) | 0xC | channel))
-        c.ensure('layout', 'bytes(pk.data) == ' + layout)
+        if layout is not None:
+            c.ensure('layout', 'bytes(pk.data) == ' + layout)
         c.ensure('at-most-30-bytes', 'len(pk.data) <= 30')
     else:
         c.ensure('nothing-sent-when-raising', 'len(sent(SENDER)) == 0')
@@ -375,8 +376,10 @@ def _persist(ng, nc):
     return k
 
 
-for _a, _b in ((0, 0), (1, 0), (0, 2), (2, 1), (3, 3)):
+for _a, _b in ((0, 0), (1, 0), (0, 2), (2, 1), (2, 2)):
     _persist(_a, _b)
+# (3_3 was decided in about a minute while the code summed the bits; since the repair that ORs them the any-order statement for three and
+#  more symbolic ids per list is no longer decided within the budget (sum-of-powers and bit-by-bit forms both tried) - see `ascending`)
 # (lengths 4_4 take 3..10 minutes and 5_1 / 1_5 stay undecided - the solver cannot bound the sum of five powers of two of distinct ids -
 #  so longer lists are covered by the `ascending` contracts further down: ids in ascending order, up to the 6 elements the sort model handles)
 
